@@ -2,6 +2,7 @@
    the executable specifications of `AskarModel/Crypto/`. -/
 import Driver.Common
 import AskarModel.Model.Aead
+import AskarModel.Model.ResizeBuf
 import AskarModel.Crypto.Hmac
 import AskarModel.Crypto.KeyWrap
 import AskarModel.Crypto.Gcm
@@ -9,7 +10,7 @@ import AskarModel.Crypto.ChaChaPoly
 import AskarModel.Crypto.ConcatKdf
 
 open Lean
-open Askar Askar.Aead Askar.Crypto
+open Askar Askar.Aead Askar.Crypto Askar.ResizeBuf
 
 namespace Driver.C12
 
@@ -230,7 +231,125 @@ def runOp (k : Key) (op : Json) : Json :=
     match algOf (str! op "alg") with
     | some alg => jres (fun (q : Key) => Json.mkObj [("key", jhex q.bytes)]) (unwrapKey d5Fixed prims k alg (value! op "ct") (hex! op "tag") (hex! op "nonce"))
     | none => jerr "bad alg"
+  | "random_nonce" => Json.mkObj [("len", jnat (aeadRandomNonceLen k))]
   | o => jerr ("unknown op " ++ o)
+
+/-! ### the buffer type as a dimension (`c12:buf`, `c12:bufops`), guards (`c12:misc`) -/
+
+/-- `Debug` of `askar_crypto::ErrorKind` -/
+def crateKindName : Kind → String
+  | .Custom => "Custom" | .Encryption => "Encryption" | .ExceededBuffer => "ExceededBuffer" | .Invalid => "Invalid"
+  | .InvalidKeyData => "InvalidKeyData" | .InvalidNonce => "InvalidNonce" | .MissingSecretKey => "MissingSecretKey"
+  | .Unexpected => "Unexpected" | .Usage => "Usage" | .Unsupported => "Unsupported"
+
+def cerr (e : Err) : Json := Json.mkObj [("err", .str (crateKindName e.kind)), ("msg", .str (msgText e))]
+
+def jpanic : Json := Json.mkObj [("panic", .bool true)]
+
+def jdone (view : Bytes) (ret : Option Nat) : Json :=
+  match ret with
+  | some r => Json.mkObj [("buf", jvalue view), ("pos", jnat view.length), ("ret", jnat r)]
+  | none => Json.mkObj [("buf", jvalue view), ("pos", jnat view.length)]
+
+inductive BufKind
+  | growable                       -- Vec<u8>, SecretBytes
+  | writer (cap stale : Nat)       -- Writer::from_slice_position(&mut [u8; cap], |input|), the rest filled with `pattern stale`
+
+/-- the harness's array: `pattern(stale, cap)` with the input copied over its head -/
+def writerOf (input : Bytes) (cap stale : Nat) : Writer := ⟨input ++ (pattern stale cap).drop input.length, input.length⟩
+
+def runOn {α : Type} (kind : BufKind) (input : Bytes) (prog : Prog α) (ret : α → Option Nat) : Json :=
+  match kind with
+  | .growable =>
+    match prog.run specImpl ⟨input, none⟩ with
+    | .ok (b, a) => jdone b.data (ret a)
+    | .err e => cerr e
+    | .panic _ => jpanic
+  | .writer cap stale =>
+    match prog.run (writerImpl writerFixed) (writerOf input cap stale) with
+    | .ok (w, a) => (match w.view with | .ok v => jdone v (ret a) | _ => jpanic)
+    | .err e => cerr e
+    | .panic _ => jpanic
+
+def bufVariants {α : Type} (input : Bytes) (extra staleA staleB : Nat) (prog : Prog α) (ret : α → Option Nat) : Json :=
+  let need := match prog.run specImpl ⟨input, none⟩ with
+    | .ok (b, _) => max b.data.length input.length
+    | _ => input.length
+  let reference := runOn .growable input prog ret
+  Json.mkObj [("vec", reference), ("secret", reference),
+    ("w_exact", runOn (.writer need staleA) input prog ret),
+    ("w_short", if need > input.length then runOn (.writer (need - 1) staleA) input prog ret else .null),
+    ("w_extra_a", runOn (.writer (need + extra) staleA) input prog ret),
+    ("w_extra_b", runOn (.writer (need + extra) staleB) input prog ret)]
+
+def runBuf (j : Json) : Json :=
+  match algOf (str! j "alg") with
+  | none => jerr "bad alg"
+  | some alg =>
+    match fromSecretBytes alg (hex! j "key") with
+    | .ok k =>
+      let msg := value! j "msg"
+      let nonce := hex! j "nonce"
+      let aad := value! j "aad"
+      let extra := nat! j "extra"
+      let (sa, sb) := match arr! j "stale" with
+        | [a, b] => ((a.getNat?.toOption).getD 0, (b.getNat?.toOption).getD 0)
+        | _ => (0xEE, 0x11)
+      let encP := encryptInPlaceP prims k nonce aad
+      let decP := decryptInPlaceP d5Fixed prims k nonce aad
+      let input : Option Bytes := match getD? j "raw" with
+        | some _ => some (value! j "raw")
+        | none => match encP.run specImpl ⟨msg, none⟩ with
+          | .ok (b, _) => some b.data
+          | _ => none
+      Json.mkObj [("enc", bufVariants msg extra sa sb encP some),
+        ("dec", match input with
+          | some i => bufVariants i extra sa sb decP (fun _ => none)
+          | none => .null)]
+    | .err e => Json.mkObj [("key", cerr e)]
+    | .panic _ => jpanic
+
+def opOf (j : Json) : Option Op :=
+  match str! j "o" with
+  | "write" => some (.write (hex! j "d"))
+  | "insert" => some (.insert (nat! j "p") (hex! j "d"))
+  | "remove" => some (.remove (nat! j "s") (nat! j "e"))
+  | "resize" => some (.resize (nat! j "n"))
+  | "extend" => some (.extend (nat! j "n"))
+  | _ => none
+
+/-- one result per operation; an error leaves the state as it was, a panic ends the run -/
+def opSteps {β : Type} (I : BufImpl β) (view : β → Option Bytes) : List Op → β → List Json
+  | [], _ => []
+  | op :: rest, b =>
+    match (Prog.ofOps [op]).run I b with
+    | .ok (b', _) =>
+      match view b' with
+      | some v => jdone v none :: opSteps I view rest b'
+      | none => [jpanic]
+    | .err e => cerr e :: opSteps I view rest b
+    | .panic _ => [jpanic]
+
+def runBufOps (j : Json) : Json :=
+  let cap := nat! j "cap"
+  let init := hex! j "init"
+  let ops := (arr! j "ops").filterMap opOf
+  if init.length > cap then jerr "init longer than cap" else
+  let growable := Json.arr (opSteps specImpl (fun b => some b.data) ops ⟨init, none⟩).toArray
+  let writer := opSteps (writerImpl writerFixed) (fun w => match w.view with | .ok v => some v | _ => none) ops
+    (writerOf init cap (nat! j "stale"))
+  Json.mkObj [("vec", growable), ("secret", growable), ("writer", .arr writer.toArray)]
+
+def guardJson (crate : Bool) : Option Err → Json
+  | none => .str "ok"
+  | some e => jerr (if crate then crateKindName e.kind else kindName e.kind)
+
+def runMisc (j : Json) : Json :=
+  .arr ((arr! j "probes").map fun p =>
+    match str! p "p" with
+    | "from_seed" => guardJson false (fromSeedGuard (strOpt p "method") (hex! p "seed").length)
+    | "argon2_new" => guardJson true (argon2NewGuard (nat! p "salt_len"))
+    | _ => jerr "unknown probe").toArray
 
 def selfTests : Json :=
   Json.mkObj [("sha2", .bool Sha2.selfTest), ("hmac", .bool Hmac.selfTest), ("aes", .bool Aes.selfTest),
@@ -241,6 +360,9 @@ def selfTests : Json :=
 def runCase (j : Json) : Json :=
   match str! j "kind" with
   | "c12:selftest" => selfTests
+  | "c12:buf" => runBuf j
+  | "c12:bufops" => runBufOps j
+  | "c12:misc" => runMisc j
   | "c12:keylens" =>
     match algOf (str! j "alg") with
     | none => jerr "bad alg"
